@@ -387,8 +387,13 @@ def two_step_batches(tier):
                 for pb, _ in na + node_paths("p1", OTHER):
                     ops += ["reset"] + setup + [f"swap {pth} {pb}", f"swap {pth} {pb}", "obsall"]
                     ops += ["reset"] + setup + [f"swap {pth} {pb}", f"swap {pb} {pth}", "obsall"]
-                    ops += ["reset"] + setup + [f"cpa {pth} {pb}", f"eq {pth} {pb}", f"cpa {pb} {pth}", "obsall"]
-                    ops += ["reset"] + setup + [f"mva {pth} {pb}", f"mva {pb} {pth}", "obsall"]
+                    if pb.startswith(pth + "."):
+                        # the second operand lies below the first: it is gone after the first assignment
+                        ops += ["reset"] + setup + [f"cpa {pth} {pb}", "obsall"]
+                        ops += ["reset"] + setup + [f"mva {pth} {pb}", "obsall"]
+                    else:
+                        ops += ["reset"] + setup + [f"cpa {pth} {pb}", f"eq {pth} {pb}", f"cpa {pb} {pth}", "obsall"]
+                        ops += ["reset"] + setup + [f"mva {pth} {pb}", f"mva {pb} {pth}", "obsall"]
                 # sorting twice is sorting once; sorting by a predicate then by the default order
                 for kk in (0, 1, 2, 3):
                     ops += ["reset"] + setup + [f"sortp {pth} {kk}", f"sortp {pth} {kk}", "sort " + pth, f"sortp {pth} 2", "obsall"]
